@@ -152,3 +152,41 @@ prop("C18", [
     "only side-effect-free requests: NETLINK_ROUTE message types above RTM_MAX with the REQUEST flag, which the kernel refuses with EOPNOTSUPP and echoes",
     "a zero-length datagram cannot be sent between netlink sockets (ENODATA); it is covered at parser level only"],
    nontrivial_classes=["send-echoed", "foreign-header-sized-refused", "foreign-short-refused", "parser-short", "parser-ok", "concurrent-batch"])
+
+COAL = "props/coalesce"
+
+prop("C09", [
+    S(COAL, "^TestC09Regress$", kind="plain"),
+    S(COAL, "^TestC09Modes$", kind="plain", timeout_t=3000),
+    S(COAL, "^TestC09$", q=8000, t=100000, shards=16),
+], ["device may be rdev or dev; S_IFMT values outside the seven valid file types are unasserted for the object type",
+    "'present somewhere' is location-agnostic for unique tokens; fixed-vocabulary values are checked under their key (or socket_<key>, result, session)",
+    "known finding filetype-nonregular-as-file is matched by its exact shape (valid non-regular type reported as 'file')"],
+   nontrivial_classes=["degenerate-group-refused", "file-summary-checked", "key-collision", "mode-sweep-valid-type", "records-1", "records-3"])
+
+prop("C15", [
+    S(COAL, "^TestC15Regress$", kind="plain"),
+    S(COAL, "^TestC15$", q=3000, t=50000, shards=16),
+    S(COAL, "^TestC15Concurrent$", kind="plain", race=True, q=300, t=20000, timeout_t=3000),
+], ["events are compared as deep copies with warnings by text; nil and empty containers are not distinguished",
+    "ResolveIDs is meant to change the event it is given; that event's snapshot is refreshed, all others must stay equal"],
+   nontrivial_classes=["history-with-repeated-coalescing-of-stateful-group", "history-with-2-live-events", "concurrent-round"])
+
+TABLES = "props/tables"
+
+prop("C20", [
+    S(TABLES, "^TestC20", kind="plain"),
+], ["internal consistency only, as the property states; agreement with the kernel headers is informational here and enforced by C06 / C12 / C16",
+    "the name->type table is read from the generated source file of the working tree (it is not exported)"],
+   nontrivial_classes=["table-record-type", "table-record-type-name", "table-errno-number", "table-errno-name", "table-arch", "table-syscall",
+                       "table-rule-field", "table-rule-operator", "table-rule-comparison", "table-normalization-syscall", "table-normalization-record-type"])
+
+prop("C11", [
+    S(REASM, "^TestC11Regress$", kind="plain"),
+    S(REASM, "^TestC11$", q=3000, t=50000, shards=16),
+    S(REASM, "^TestC11Exhaustive$", kind="plain", q=20000, t=2000000, shards=16, timeout_t=3300),
+    S(REASM, "^TestC11Stress$", kind="plain", race=True, q=40, t=3000, timeout_t=3000),
+], ["interleavings are at the granularity of the library's atomic steps (the yield points of the verif hook); races inside a step are only sampled by the race-detector stress",
+    "a deadlock is declared only when every worker has been released from the scheduler and nobody finishes within 10 s",
+    "'Close invoked' = the moment the first Close call of any kind (worker or re-entrant) is entered; exact under the controlled scheduler"],
+   nontrivial_classes=["schedule-with-preemption-and-delivery", "program-enumerated-exhaustively", "stress-round"])
